@@ -181,6 +181,27 @@ func init() {
 			}
 			a := scan(ss, false)
 			b := scan(fs, true)
+			// several scanners of one storage alive at once, advanced in turns (engines may be built while another scan
+			// of the same lists is in progress): each yields the whole sequence
+			for _, s := range []*filterlist.RuleStorage{fs, ss} {
+				s1, s2 := s.NewRuleStorageScanner(), s.NewRuleStorageScanner()
+				var o1, o2 []ent
+				for more1, more2 := true, true; more1 || more2; {
+					if more1 = more1 && s1.Scan(); more1 {
+						r, idx := s1.Rule()
+						o1 = append(o1, ent{idx, kindOf(r), r.Text(), r.GetFilterListID()})
+					}
+					for k := 0; k < 2; k++ {
+						if more2 = more2 && s2.Scan(); more2 {
+							r, idx := s2.Rule()
+							o2 = append(o2, ent{idx, kindOf(r), r.Text(), r.GetFilterListID()})
+						}
+					}
+				}
+				if fmt.Sprint(o1) != fmt.Sprint(a) || fmt.Sprint(o2) != fmt.Sprint(a) {
+					flags += "!INTERLEAVED-SCANNERS-DIFFER-FROM-A-SINGLE-SCAN"
+				}
+			}
 			render := func(l []ent) string {
 				p := make([]string, len(l))
 				for i, e := range l {
